@@ -76,7 +76,7 @@ class DataReader(object):
         self.i += 1
 
         # Only handle lines within the data.
-        if not self.EOD:
+        if self.EOD is None:
             # Check for the End-Of-Data marker.
             if eod_pattern.match(line):
                 self.EOD = i
@@ -109,7 +109,7 @@ class DataReader(object):
             raise MessageTooBig()
 
         self.add_lines(piece)
-        return not self.EOD
+        return self.EOD is None
 
     def return_all(self):
         assert self.EOD is not None
